@@ -260,7 +260,8 @@ Print Assumptions C06_libpoly_count_full.
    over Z, and at every real x the multiplicities of x in the factors sum to [x is a root of f] - so every real
    root of a factor is simple, the factors have pairwise disjoint real roots, and together they have all of them *)
 Theorem C06_libpoly_sqfree_factors : forall (R : rcfType) (f : list Z), PR R f != 0 ->
-  [/\ forall gk, gk \in lp_sqfree_factors f -> PR R gk.1 != 0 /\ GcdSpec.rdvd (Poly gk.1) (Poly f)
+  [/\ forall gk, gk \in lp_sqfree_factors f -> PR R gk.1 != 0 /\ GcdSpec.rdvd (Poly gk.1) (Poly f),
+      forall gk, gk \in lp_sqfree_factors f -> gk.1 = [:: Z0; Zpos xH] \/ ~~ root (PR R gk.1) 0
     & forall x : R, (\sum_(gk <- lp_sqfree_factors f) \mu_x (PR R gk.1) = root (PR R f) x :> nat)%N].
 Proof. exact lp_sqfree_factors_spec. Qed.
 Print Assumptions C06_libpoly_sqfree_factors.
